@@ -3,6 +3,13 @@ import cexprtk
 from ._common import Potential_Form_Exception
 
 
+# Functions, operators and keywords of the expression library (exprtk's reserved symbols). Inside a formula these names
+# never reach a function registered by the user, in whatever case they are written.
+_EXPRTK_RESERVED = frozenset("""abs acos acosh and asin asinh atan atanh atan2 avg break case ceil clamp continue cos cosh cot csc
+default deg2grad deg2rad equal erf erfc exp expm1 false floor for frac grad2deg hypot iclamp if else ilike in inrange like log
+log10 log2 logn log1p mand max min mod mor mul ncdf nand nor not not_equal null or pow rad2deg repeat return root round roundn
+sec sgn shl shr sin sinc sinh sqrt sum swap switch tan tanh true trunc until var while xnor xor""".split())
+
 class _Cexptrk_Potential_Function(object):
   """Callable that can be added to cexprtk symbol_table. 
 
@@ -30,6 +37,8 @@ class _Cexptrk_Potential_Function(object):
   def register_function(self, func):
     """Register `func` with this object's symbol_table"""
     label = func._potential_form_tuple.signature.label
+    if label.lower() in _EXPRTK_RESERVED:
+      raise Potential_Form_Exception("Name clash for potential-form '{}': the name is taken by a function or keyword of the expression library".format(label))
     try:
       self._local_symbol_table.functions[label] = func
     except (KeyError, cexprtk._exceptions.NameShadowException) as e:
